@@ -52,9 +52,33 @@ func (h *reuseHandler) Generate(p *csr.ReqParam) ([]csr.AgentKey, error) {
 	return []csr.AgentKey{h.key}, nil
 }
 
+// panicAgent is the forwarded agent as an OBJECT that crashes at its n-th call (any agent.Agent implementation may: the
+// interface is what agent/ssh programs against); calls are counted from the start of each run.
+type panicAgent struct {
+	ag.ExtendedAgent
+	calls, at int
+}
+
+func (p *panicAgent) tick(op string) {
+	if p.calls == p.at {
+		p.calls++
+		panic("forwarded agent object crashed in " + op)
+	}
+	p.calls++
+}
+func (p *panicAgent) Add(k ag.AddedKey) error  { p.tick("Add"); return p.ExtendedAgent.Add(k) }
+func (p *panicAgent) List() ([]*ag.Key, error) { p.tick("List"); return p.ExtendedAgent.List() }
+func (p *panicAgent) Remove(k ssh.PublicKey) error {
+	p.tick("Remove")
+	return p.ExtendedAgent.Remove(k)
+}
+
 type c04ReuseCase struct {
 	Reuse  bool
 	NCerts int
+	// PanicAt[r] >= 0: in run r the forwarded agent object crashes at its PanicAt[r]-th call of that run (add private key,
+	// list, removes, certificate adds); the run must end with a Panic error and nothing may be reported as success
+	PanicAt []int `json:",omitempty"`
 	// Faults[r] = fault plan of run r: agent request index relative to the start of that run -> fault kind
 	Faults []map[string]string
 }
@@ -67,9 +91,14 @@ func c04Reuse(c *ev.Ctx, k c04ReuseCase) {
 	e := newEnv(envOpt{KeyDir: "pub", LogName: "alice", Validity: 3600, KeyIDs: map[string]string{"default": "slot"}, Behaviour: "honest", AgentHasKey: true})
 	defer e.close()
 	e.ca.NCerts, e.ca.Idempotent = k.NCerts, true
-	h := &reuseHandler{client: ag.NewClient(e.conn)}
+	pa := &panicAgent{ExtendedAgent: ag.NewClient(e.conn), at: -1}
+	h := &reuseHandler{client: pa}
 	for r, plan := range k.Faults {
 		e.events = nil
+		pa.calls, pa.at = 0, -1
+		if r < len(k.PanicAt) {
+			pa.at = k.PanicAt[r]
+		}
 		e.ua.Plan = map[int]string{}
 		base := len(e.ua.Log)
 		for is, kind := range plan {
@@ -82,6 +111,16 @@ func c04Reuse(c *ev.Ctx, k c04ReuseCase) {
 		if esc != "" {
 			c.Violation("C04:crash:"+ev.PanicSite(esc), "a panic escaped gensign.Run:\n"+esc, k)
 			return
+		}
+		if pa.at >= 0 && pa.calls > pa.at {
+			// the agent object crashed during this run
+			c.Outcome(fmt.Sprintf("reuse/run%d/agent-object-crashed/%s", r, errType(err)))
+			c.Nontrivial(ev.JSON(k) + fmt.Sprint(r))
+			if errType(err) != "Panic" {
+				c.Violation("C04:reuse:agent-crash-wrong-kind:"+errType(err), fmt.Sprintf("run %d: the forwarded agent object crashed at its call #%d, the run returned %v (want a Panic error)", r, pa.at, err), k)
+				return
+			}
+			continue
 		}
 		fired := ""
 		for _, q := range e.ua.Log[base:] {
@@ -118,6 +157,13 @@ func c04Reuse(c *ev.Ctx, k c04ReuseCase) {
 
 func c04ReuseCases(thorough bool) (cs []c04ReuseCase) {
 	kinds := []string{uagent.FaultFailure, uagent.FaultClose}
+	for _, nc := range []int{1, 2, 3} {
+		// the forwarded agent object crashes at every call index of the first / the second run
+		for idx := 0; idx < 4+nc; idx++ {
+			cs = append(cs, c04ReuseCase{Reuse: true, NCerts: nc, Faults: []map[string]string{{}, {}}, PanicAt: []int{idx, -1}})
+			cs = append(cs, c04ReuseCase{Reuse: true, NCerts: nc, Faults: []map[string]string{{}, {}, {}}, PanicAt: []int{-1, idx, -1}})
+		}
+	}
 	for _, nc := range []int{1, 2} {
 		cs = append(cs, c04ReuseCase{Reuse: true, NCerts: nc, Faults: []map[string]string{{}, {}, {}}})
 		// run 0 requests: add private key, list, [removes], certificate adds; later runs: list, removes, adds
